@@ -126,6 +126,128 @@ def applyLocators (hash : List Byte → Nat) (subject : List Byte) (vals : List 
     | none => some s
     | some k => locate hash subject (vals.take k) shardNum
 
+/-! ### writes that carry their own tag layout (`banyand/liaison/grpc/locator.go`, `pkg/pb/v1/metadata.go`) -/
+
+/-- a tag family of the schema (`databasev1.TagFamilySpec`) or of a client-supplied write spec
+    (`streamv1/measurev1.TagFamilySpec`): a name and tag names in order -/
+structure FamSpec where
+  name : Name
+  tags : List Name
+  deriving DecidableEq, Repr
+
+/-- first index of `x` (a `for … { if name == x { return i } }` loop) -/
+def firstIdx : List Name → Name → Option Nat
+  | [], _ => none
+  | y :: ys, x => if y = x then some 0 else (firstIdx ys x).map (· + 1)
+
+/-- index stored in a Go map filled by `for i, y := range l { m[y] = i }`: the LAST occurrence -/
+def lastIdx : List Name → Name → Option Nat
+  | [], _ => none
+  | y :: ys, x =>
+    match lastIdx ys x with
+    | some i => some (i + 1)
+    | none => if y = x then some 0 else none
+
+/-- `pbv1.FindTagByName`: (family offset, tag offset) of the first schema tag with that name -/
+def findTagByName : List FamSpec → Name → Option (Nat × Nat)
+  | [], _ => none
+  | f :: fs, t =>
+    match firstIdx f.tags t with
+    | some ti => some (0, ti)
+    | none => (findTagByName fs t).map fun p => (p.1 + 1, p.2)
+
+/-- the schema loop of `findTagInSpec`: name of the first schema family that has the tag -/
+def schemaFamilyOf : List FamSpec → Name → Option Name
+  | [], _ => none
+  | f :: fs, t => if f.tags.contains t then some f.name else schemaFamilyOf fs t
+
+/-- `findTagInSpec` + `buildSpecMaps`: where the client's layout carries schema tag `t`; `none` is the `(-1, -1)`
+    locator (family not in the spec, or tag not listed in that family, or tag not in the schema) -/
+def findTagInSpec (schema spec : List FamSpec) (t : Name) : Option (Nat × Nat) :=
+  match schemaFamilyOf schema t with
+  | none => none
+  | some fam =>
+    match lastIdx (spec.map (·.name)) fam with
+    | none => none
+    | some fi =>
+      match lastIdx ((spec.getD fi ⟨[], []⟩).tags) t with
+      | none => none
+      | some ti => some (fi, ti)
+
+/-- `partition.GetTagByOffset`; `none` = "tag family/tag offset is invalid" -/
+def getTagByOffset (write : List (List C12.TagValue)) (fi ti : Nat) : Option C12.TagValue :=
+  match write[fi]? with
+  | none => none
+  | some fam => fam[ti]?
+
+/-- `newSpecLocator`: one locator per entity (or sharding-key) tag name -/
+def specLocators (schema spec : List FamSpec) (tagNames : List Name) : List (Option (Nat × Nat)) :=
+  tagNames.map (findTagInSpec schema spec)
+
+/-- one entity value of `specLocator.Find`: a `(-1,-1)` locator yields a null entity value -/
+def locValue (write : List (List C12.TagValue)) : Option (Nat × Nat) → Option C12.TagValue
+  | none => some .null
+  | some (fi, ti) => getTagByOffset write fi ti
+
+/-- `specLocator.Find` (without the subject) -/
+def specFind (locs : List (Option (Nat × Nat))) (write : List (List C12.TagValue)) : Option (List C12.TagValue) :=
+  locs.mapM (locValue write)
+
+/-- `partition.NewEntityLocator` / `NewShardingKeyLocator`: names that the schema lacks are skipped -/
+def schemaLocators (schema : List FamSpec) (tagNames : List Name) : List (Nat × Nat) :=
+  tagNames.filterMap (findTagByName schema)
+
+/-- `partition.Locator.Find` (without the subject) -/
+def schemaFind (locs : List (Nat × Nat)) (write : List (List C12.TagValue)) : Option (List C12.TagValue) :=
+  locs.mapM fun p => getTagByOffset write p.1 p.2
+
+/-- `Locate` of either locator once the entity values are found -/
+def locateVals (hash : List Byte → Nat) (subject : List Byte) (shardNum : Nat) :
+    Option (List C12.TagValue) → Option (List C12.TagValue × Nat)
+  | none => none
+  | some vals => (shardID (hash (entityKey subject vals)) shardNum).map fun s => (vals, s)
+
+/-- `navigateByLocator` → `ApplyLocators` for a write with a spec: entity values from the entity locator, shard from
+    the sharding-key locator when the resource has a sharding key -/
+def specNavigate (hash : List Byte → Nat) (schema spec : List FamSpec) (entity : List Name) (shardingKey : Option (List Name))
+    (subject : List Byte) (write : List (List C12.TagValue)) (shardNum : Nat) : Option (List C12.TagValue × Nat) :=
+  match locateVals hash subject shardNum (specFind (specLocators schema spec entity) write) with
+  | none => none
+  | some (evs, s) =>
+    match shardingKey with
+    | none => some (evs, s)
+    | some sk => (locateVals hash subject shardNum (specFind (specLocators schema spec sk) write)).map fun p => (evs, p.2)
+
+/-- the same for a write without a spec (locators cached from the schema) -/
+def schemaNavigate (hash : List Byte → Nat) (schema : List FamSpec) (entity : List Name) (shardingKey : Option (List Name))
+    (subject : List Byte) (write : List (List C12.TagValue)) (shardNum : Nat) : Option (List C12.TagValue × Nat) :=
+  match locateVals hash subject shardNum (schemaFind (schemaLocators schema entity) write) with
+  | none => none
+  | some (evs, s) =>
+    match shardingKey with
+    | none => some (evs, s)
+    | some sk => (locateVals hash subject shardNum (schemaFind (schemaLocators schema sk) write)).map fun p => (evs, p.2)
+
+/-! specification side for layouts: one logical series, as a spec'd write and as a spec-less write -/
+
+/-- what the client sends: for every family of its spec, the values of the listed tags in that order -/
+def specWrite (spec : List FamSpec) (v : Name → Name → C12.TagValue) : List (List C12.TagValue) :=
+  spec.map fun f => f.tags.map (v f.name)
+
+/-- the value of schema tag `t` of family `fam` that such a write carries: null unless the spec has the family and lists the tag -/
+def carried (spec : List FamSpec) (v : Name → Name → C12.TagValue) (fam t : Name) : C12.TagValue :=
+  match spec.find? (fun f => f.name == fam) with
+  | some f => if f.tags.contains t then v fam t else .null
+  | none => .null
+
+/-- the same series written without a spec, in schema layout -/
+def refWrite (schema spec : List FamSpec) (v : Name → Name → C12.TagValue) : List (List C12.TagValue) :=
+  schema.map fun f => f.tags.map (carried spec v f.name)
+
+/-- the value of tag `t` that the series has after the spec is taken into account -/
+def effValue (schema spec : List FamSpec) (v : Name → Name → C12.TagValue) (t : Name) : C12.TagValue :=
+  carried spec v ((schemaFamilyOf schema t).getD []) t
+
 /-! ## 3. the round-robin selector (`pkg/node/round_robin.go`) -/
 
 structure Key where
